@@ -23,12 +23,26 @@ RULE = ('exhaustive small scope: (categorical, leaky) every cell sequence of len
         '(datetime/date) every accepted layout printed for boundary instants plus malformed texts; Python int() vs the '
         'Gallina py_int on every string of length <= 4 over a 9-symbol alphabet; then seeded random columns of 3..24 '
         'rows split into 1..6 chunks (so companion offsets accumulate over >= 3 chunks) with random buffer layout; and '
-        'end-to-end CSV imports through load_schema with chunk_row_size 1..4. Each direct case costs ~10 ms (HDF5).')
+        'end-to-end CSV imports through load_schema with chunk_row_size 1..4. Each direct case costs ~10 ms (HDF5). '
+        '(SC06) key tables outside ASCII: every table of 2 keys over the 21 strings of <= 2 characters on {a, e-acute, '
+        'U+7537, U+1F600} (1/2/3/4 UTF-8 bytes, so character count and byte count order the keys differently) and every '
+        'table of 3 keys over the 13 strings on the first three (thorough: over all 21), each with all pool strings and '
+        'byte-level near misses of the keys as cells in 2 chunks, insertion order alternated; every table of 2..3 ASCII '
+        'keys of length <= 2; a 128-key table; random tables of 2..6 keys of <= 3 characters over 13 characters. '
+        'Long cells: a ladder of byte widths (every width 1..72, both neighbours of 96 and of the powers of two up to '
+        '1024, 300; thorough: every width to 130 and the neighbours of 2048 and 4096; plus K-1, K, K+1, 2K-1, 2K, 2K+1, 3K '
+        'for every size literal K that is new in the tree under test) x 10 integer and 11 float text forms of exactly '
+        'that width (zero padded, blank padded either side, sign, underscores, all nines, junk / sign / exponent in '
+        'the last bytes, long fraction, exponent at the very end ...), dtype and mode rotated (thorough: all modes), '
+        'alone and next to short cells in the same chunk; keys, bool / date / datetime cells and fixed-string lengths at '
+        'the widths around 32..1024; integer numerals on both sides of CPython\'s 4300-digit limit. The extracted model '
+        'is quadratic in the cell length: 4097 bytes is the affordable maximum.')
 EXHAUSTIVE = {'quick': True, 'thorough': True}
 TRUSTED = ['numpy >= 2 casts an S-string to an integer/float dtype by calling Python int()/float() on it and storing the '
            'result with a range check (OverflowError) - modelled so, exercised by this correspondence',
            'Python float() (oracle table computed by the harness; the model treats the parsed value as an opaque token)',
-           'Python int() on bytes is DEFINED in Gallina (py_int) and compared with CPython on ~7400 strings per run',
+           'Python int() on bytes is DEFINED in Gallina (py_int, including the 4300-digit limit of CPython >= 3.11) and '
+           'compared with CPython on ~7400 strings per run (21 of them on both sides of the digit limit)',
            'datetime(...).timestamp() for aware UTC datetimes = exact microsecond count / 10^6 correctly rounded '
            '(the harness recovers the integer microseconds from the stored float64 and checks the round trip)',
            'datetime.strptime(s, "%Y-%m-%d") modelled from the regular expressions of CPython 3.12 on every byte string: '
@@ -38,6 +52,7 @@ TRUSTED = ['numpy >= 2 casts an S-string to an integer/float dtype by calling Py
 ASSUMPTIONS = ['cells lie inside the column\'s region of column_vals (what the CSV reader guarantees)',
                'category keys are distinct (a dict) and category codes are in 0..127',
                'cell texts for bool/datetime columns are ASCII (date columns: any bytes); no NUL bytes inside cells',
+               'category keys are valid UTF-8 text (they are Python str objects in the schema); cells are arbitrary bytes',
                'int64 values on the wire are limited to |v| < 2^62 (OCaml native ints)']
 
 _np = _fi = _ops = _sess = _ds = _parsers = _ls = None
@@ -422,9 +437,21 @@ def features(case, model):
     off, slack, tail = case['lay']
     if off: f.append('col-offset>0')
     if tail: f.append('stale-index-tail')
+    mx = max([len(c) for ch in chunks for c in ch] + [0])
+    for lim in (33, 65, 129, 257, 1025):
+        if mx >= lim: f.append('cell-bytes>=%d' % lim)
+    if case.get('form'): f.append('num-form:' + case['form'])
     if k in ('cat', 'leaky'):
         keys = [key for key, _ in case['cats']]
         if sum(len(b(x)) for x in keys) > 255: f.append('keybytes>255')
+        if len(keys) >= 100: f.append('keys>=100')
+        if any(len(x) >= 256 for x in keys): f.append('key-bytes>=256')
+        try:
+            ck = [(len(b(x).decode('utf-8')), len(x)) for x in keys]
+            if any(a != n for a, n in ck): f.append('non-ascii-key')
+            if any(a1 <= a2 and n1 > n2 for a1, n1 in ck for a2, n2 in ck): f.append('key-with-fewer-chars-has-more-bytes')
+        except UnicodeDecodeError:
+            pass
         cells = [c for ch in chunks for c in ch]
         if any(c in keys for c in cells): f.append('cell-matches')
         if any(c not in keys for c in cells): f.append('cell-unmatched')
@@ -600,7 +627,182 @@ def _u(t):
     return t.encode('utf-8', 'surrogatepass').decode('latin-1')
 
 
-def gen(tier, rng):
+# ------------------------------------------------------------------- strengthening SC06 (seeded C06-r2-1, C06-r2-2)
+# (1) category tables outside ASCII, where the number of characters of a key and the number of its UTF-8 bytes order
+#     the keys differently (Python sorts / measures str objects, the kernels compare bytes);
+# (2) cell texts far longer than anything a pool of "typical" numerals contains: a ladder of byte widths that covers
+#     every width up to 72 and both neighbours of the powers of two up to 1024 (thorough: 4096), plus the neighbours
+#     of every size literal that is new in the tree under test (harness/hot.py).
+UCH = ['a', 'é', '男', '\U0001F600']          # 1, 2, 3 and 4 bytes of UTF-8
+
+
+def _ustrings(alpha, maxchars):
+    return [''.join(p) for n in range(0, maxchars + 1) for p in itertools.product(alpha, repeat=n)]
+
+
+def _hot_widths():
+    ws = set()
+    try:
+        from harness import hot
+        for k in hot.hot_sizes():
+            ws |= {k - 1, k, k + 1, 2 * k - 1, 2 * k, 2 * k + 1, 3 * k}
+    except Exception:
+        pass
+    return set(w for w in ws if 1 <= w <= 4200)
+
+
+def _widths(tier):
+    big = tier == 'thorough'
+    ws = set(range(1, 73)) | {95, 96, 97, 127, 128, 129, 255, 256, 257, 300, 511, 512, 513, 1023, 1024, 1025}
+    if big:
+        ws |= set(range(73, 131)) | {2047, 2048, 2049, 4095, 4096, 4097}
+    ws |= _hot_widths()
+    return sorted(w for w in ws if 1 <= w <= 4200)          # int(): CPython refuses more than 4300 digits
+
+
+def _int_forms(w):
+    """numerals (and near-numerals) that are exactly w bytes long"""
+    f = [('zero-padded', ('0' * w + '42')[-w:]), ('lead-blank', ' ' * (w - 1) + '7'), ('trail-blank', '7' + ' ' * (w - 1)),
+         ('nines', '9' * w)]
+    if w >= 2:
+        f += [('neg-zero-padded', '-' + '0' * (w - 2) + '5'), ('junk-at-end', '0' * (w - 1) + 'x'),
+              ('blank-both', ' ' * ((w - 1) // 2) + '3' + ' ' * (w - 1 - (w - 1) // 2))]
+    if w >= 3:
+        f += [('underscores', '0' * (w - 2 * ((w - 3) // 2) - 2) + '_0' * ((w - 3) // 2) + '_7'),
+              ('plus-in-the-middle', '0' * (w - 2) + '+1'), ('exp-at-end', '1' + '0' * (w - 3) + 'e1')]
+    return f
+
+
+def _float_forms(w):
+    f = []
+    if w >= 3:
+        f += [('long-fraction', '0.' + '0' * (w - 3) + '5'), ('zero-padded', '0' * (w - 3) + '2.5'),
+              ('many-integer-digits', '1' + '0' * (w - 3) + '.5'), ('lead-blank', ' ' * (w - 3) + '1.5'),
+              ('trail-blank', '1.5' + ' ' * (w - 3)), ('junk-at-end', '0' * (w - 2) + '.x'),
+              ('pi-digits', ('3.' + '14159265358979323846264338327950288419716939937510' * (w // 50 + 1))[:w]),
+              ('nan-lead-blank', ' ' * (w - 3) + 'nan')]
+    if w >= 7:
+        f += [('exponent-at-end', '1.5' + '0' * (w - 6) + 'e02'), ('neg-exponent-at-end', '2.5' + '0' * (w - 7) + 'e-03')]
+    if w >= 5:
+        f += [('digit-after-exponent', '1e' + '0' * (w - 3) + '2')]
+    return f
+
+
+def _gen_unicode_tables(tier, rng, budget):
+    big = tier == 'thorough'
+    p13 = [_u(x) for x in _ustrings(UCH[:3], 2)]
+    p21 = [_u(x) for x in _ustrings(UCH, 2)]
+    tables = []
+    for pool, r in ([(p21, 2), (p13, 3)] + ([(p21, 3)] if big else [])):
+        for keys in itertools.combinations(pool, r):
+            tables.append((pool, list(keys)))
+    # four and five keys, three characters: structured random
+    p3 = [_u(x) for x in _ustrings(UCH + ['B', '0', ' ', '\x7f', '\xff', '\u0100', '\u07ff', '\u0800', '\uffff'], 3)]
+    for _ in range((2000 if big else 150) + budget):
+        tables.append((p21, rng.sample(p3, rng.randint(2, 6))))
+    seen = set()
+    for n, (pool, keys) in enumerate(tables):
+        if tuple(keys) in seen:
+            continue
+        seen.add(tuple(keys))
+        if n % 2:
+            keys = keys[::-1]                   # dict insertion order must not matter
+        tab = [[k, (5 * i + n) % 128] for i, k in enumerate(keys)]
+        near = [k[:-1] for k in keys if k] + [k[:-1] + chr(ord(k[-1]) ^ 1) for k in keys if k] + [k + 'a' for k in keys]
+        cells = list(keys) + [c for c in pool if c not in keys] + near
+        h = (n % (len(cells) - 1)) + 1
+        kind = ('cat', 'leaky')[n % 2] if not big else None
+        for kd in ([kind] if kind else ['cat', 'leaky']):
+            yield {'k': kd, 'cats': tab, 'chunks': [cells[:h], cells[h:]], 'lay': LAYS[n % 3]}
+    # the same question inside ASCII: every table of two or three keys of length <= 2 over {a,b}
+    ab2 = [x for x in AB3 if len(x) <= 2]
+    n = 0
+    for r in (2, 3):
+        for keys in itertools.combinations(ab2, r):
+            n += 1
+            tab = [[k, 3 * i + 1] for i, k in enumerate(keys[::-1] if n % 2 else keys)]
+            yield {'k': ('cat', 'leaky')[n % 2], 'cats': tab, 'chunks': [AB3[:n % 15], AB3[n % 15:]], 'lay': LAYS[n % 3]}
+    # as many keys as int8 codes
+    full = [['k%03d' % i if i % 3 else _u('é%02d' % i), i] for i in range(128)]
+    for kd in ('cat', 'leaky'):
+        yield {'k': kd, 'cats': full, 'chunks': [[full[i][0] for i in (0, 1, 2, 63, 126, 127)] + ['k12', 'k0010'], ['k127', '', 'k128']],
+               'lay': [1, 1, 1]}
+
+
+def _gen_long(tier, rng, budget):
+    big = tier == 'thorough'
+    ws = _widths(tier)
+    dts = list(DT_INT)
+    n = 0
+    for w in ws:
+        for name, c in _int_forms(w):
+            n += 1
+            bad = name in ('junk-at-end', 'plus-in-the-middle', 'exp-at-end') or (name == 'nines' and w > 2)
+            for mode in ((0, 1, 2) if big else ((2 if bad and n % 4 else n % 3),)):
+                yield {'k': 'int', 'dtype': dts[n % 7], 'mode': mode, 'inv': n % 2 * 9, 'chunks': [['1', c, '-2'], [c]] if n % 2 else [[c]],
+                       'lay': LAYS[n % 3], 'form': name}
+        for name, c in _float_forms(w):
+            n += 1
+            bad = name == 'junk-at-end'
+            for mode in ((0, 1, 2) if big else ((2 if bad and n % 4 else n % 3),)):
+                yield {'k': 'float', 'dtype': ('float64', 'float32')[n % 2], 'mode': mode, 'inv': 0,
+                       'chunks': [['1.5', c, ''], [c]] if (n % 3 == 0 and mode) else [[c]], 'lay': LAYS[n % 3], 'form': name}
+    # the other kinds at the widths where a size could change behaviour
+    wl = [w for w in ws if w in (31, 32, 33, 63, 64, 65, 127, 128, 129, 255, 256, 257, 1023, 1024, 1025) or w in _hot_widths()]
+    for i, w in enumerate(wl):
+        k1, k2, k3 = 'k' * w, 'k' * (w - 1) + 'j', 'k' * (w + 1)
+        ue = _u('é' * (w // 2) + 'z' * (w % 2))            # w bytes, about w/2 characters
+        tab = [[k1, 1], [k2, 2], [k3, 3], ['', 0], [ue, 4]]
+        cells = [k1, k2, k3, ue, k1[:-1], 'k' * (w + 2), 'j' + 'k' * (w - 1), '', ue[:-1], ue + 'z']
+        for kd in ('cat', 'leaky'):
+            yield {'k': kd, 'cats': tab[i % 2:], 'chunks': [cells[:i % 9 + 1], cells[i % 9 + 1:]], 'lay': LAYS[i % 3]}
+        for mode in (0, 1, 2):
+            cells = [' ' * (w - 3) + 'yes', 'no' + ' ' * (w - 2), ' ' * (w - 1) + '0'] + ([' ' * w] if mode else []) + (['x' * w, ' ' * (w - 1) + '2'] if mode == 2 else [])
+            yield {'k': 'bool', 'mode': mode, 'inv': 0, 'chunks': [cells[:2], cells[2:]], 'lay': LAYS[(i + mode) % 3]}
+        txt = ''.join(chr(97 + j % 26) for j in range(2 * w + 1))
+        yield {'k': 'fixed', 'n': w, 'chunks': [[txt[:w - 1], txt[:w]], [txt[:w + 1], txt, '']], 'lay': LAYS[i % 3]}
+        yield {'k': 'date', 'chunks': [[' ' * (w - 10) + '2020-06-15', ''], ['1970-01-02' + ' ' * w]], 'lay': LAYS[i % 3]}
+        yield {'k': 'datetime', 'chunks': [[' ' * (w - 19) + '2020-06-15 19:45:39', ''], ['2020-06-15 19:45:39.05 UTC' + '\t' * w]], 'lay': LAYS[i % 3]}
+    # CPython's int() refuses numerals of more than 4300 digit characters (leading zeros count; underscores, sign and
+    # blanks do not): modelled in py_int, exercised on both sides of the limit
+    for w in ((4299, 4300, 4301, 4302) if big else (4300, 4301)):
+        forms = [('zero-padded', ('0' * w + '42')[-w:])]
+        if big:
+            forms += [('lead-blank', ' ' * 5 + ('0' * w + '7')[-w:]), ('nines', '9' * w), ('underscores', '0_' * (w - 1) + '7'),
+                      ('neg-zero-padded', '-' + '0' * (w - 1) + '5')]
+        for name, c in forms:
+            for mode in ((0, 1, 2) if big else (1, 2)):
+                yield {'k': 'int', 'dtype': 'int32', 'mode': mode, 'inv': 9, 'chunks': [['1', c]], 'lay': LAYS[mode], 'form': name}
+    # structured random: columns that mix short and very long numerals, several chunks
+    for _ in range((600 if big else 120) + budget):
+        isint = rng.random() < 0.5
+        cells = []
+        for _ in range(rng.randint(2, 8)):
+            w = rng.choice(ws) if rng.random() < 0.6 else rng.randint(1, 12)
+            forms = _int_forms(w) if isint else _float_forms(w)
+            cells.append(rng.choice(forms)[1] if forms else '1')
+        mode = rng.choice([0, 1, 2, 2])
+        if isint:
+            yield {'k': 'int', 'dtype': rng.choice(dts), 'mode': mode, 'inv': rng.choice([0, 9]), 'chunks': _rand_split(rng, cells, 4),
+                   'lay': [rng.randint(0, 3), rng.randint(0, 2), rng.randint(0, 2)]}
+        else:
+            yield {'k': 'float', 'dtype': rng.choice(['float32', 'float64']), 'mode': mode, 'inv': rng.choice([0, -1]),
+                   'chunks': _rand_split(rng, cells, 4), 'lay': [rng.randint(0, 3), rng.randint(0, 2), rng.randint(0, 2)]}
+
+
+def gen_sc06(tier, rng):
+    budget = 0
+    try:
+        from harness import hot
+        if hot.changed():
+            budget = 400                 # some library source differs from the recorded tree: search harder
+    except Exception:
+        pass
+    yield from _gen_unicode_tables(tier, rng, budget)
+    yield from _gen_long(tier, rng, budget)
+
+
+def _gen_base(tier, rng):
     big = tier == 'thorough'
     # ---- Python int() vs py_int
     alpha = [' ', '+', '-', '_', '0', '1', '9', 'a', '\t']
@@ -611,6 +813,12 @@ def gen(tier, rng):
         yield {'k': 'pyint', 't': t}
     for _ in range(3000 if big else 600):
         yield {'k': 'pyint', 't': ''.join(rng.choice(alpha + ['5', '7']) for _ in range(rng.randint(5, 9)))}
+    for n in (4299, 4300, 4301):         # sys.get_int_max_str_digits() = 4300
+        ts = ['0' * (n - 1) + '7', ' -' + '0' * (n - 1) + '7 ', '0' * n + 'x', '_' + '1' * n]
+        if big or n == 4301:            # printing a 4300-digit value costs the extracted model ~6 s: thorough tier only
+            ts += ['1' * n, '1_' * (n - 1) + '1', '+' + '9' * n]
+        for t in ts:
+            yield {'k': 'pyint', 't': t}
 
     # ---- categorical / leaky: exhaustive
     maxlen = 2
@@ -784,14 +992,40 @@ def gen(tier, rng):
             yield {'k': 'date', 'chunks': [[rng.choice(['2020-06-15', '', '1970-01-01']) for _ in range(rng.randint(0, 40))]]}
             yield {'k': 'datetime', 'chunks': [[rng.choice(['2020-06-15 19:45:39', '', '2020-06-15 19:45:39.05 UTC', '2020-06-15 19:45:39+01:00'])
                                                 for _ in range(rng.randint(0, 40))]]}
+        # SC06: non-ASCII tables and long numerals end to end
+        for kind in ('cat', 'leaky'):
+            for r in (3, 5):
+                keys = rng.sample([_u(x) for x in _ustrings(UCH, 2)], r)
+                tab = [[k, j + 1] for j, k in enumerate(keys)]
+                pool = keys + [_u(x) for x in UCH] + ['aa', 'x']
+                yield {'k': kind, 'cats': tab + [['long_key__', 9]], 'chunks': [[rng.choice(pool) for _ in range(rng.randint(5, 30))]]}
+        for w in (40, 300):
+            yield {'k': 'int', 'dtype': 'int32', 'mode': 1, 'inv': 0, 'chunks': [['1', '', ('0' * w + '42')[-w:], '7']]}
+            yield {'k': 'float', 'dtype': 'float64', 'mode': 2, 'inv': 0, 'chunks': [['1.5', '1.5' + '0' * (w - 6) + 'e02', 'x', '0.' + '0' * w + '5']]}
     # chunk_row_size: the reader's window (2*crs*ncols bytes) must hold the longest record twice over - smaller
     # windows are the CSV reader's own territory (C05, F-C05a), not the conversion's
     for c in csv_cases():
         rec = max([len(x) for x in c['chunks'][0]] + [1]) + 3
         small = max(2, (2 * rec + 3) // 4)
-        for crs in ((small, small + 1, 2 * small, 64) if big else (small, 64)):
+        for crs in ((small, small + 1, 2 * small, max(64, small + 2)) if big else (small, max(64, small + 2))):
             d = dict(c); d['via'] = 'csv'; d['crs'] = crs; d['lay'] = [0, 0, 0]
             yield d
+
+
+def gen(tier, rng):
+    """the base families, then (SC06) non-ASCII key tables and very long cells.  The model is quadratic in the cell
+    length (list-based get/set), so the long cells are shuffled and spread evenly over the stream: core.run_model
+    shards the stream into contiguous blocks."""
+    base = list(_gen_base(tier, rng))
+    new = list(gen_sc06(tier, rng))
+    rng.shuffle(new)
+    every = max(1, len(base) // max(1, len(new)))
+    j = 0
+    for i, c in enumerate(base):
+        yield c
+        if i % every == every - 1 and j < len(new):
+            yield new[j]; j += 1
+    yield from new[j:]
 
 
 def shrink(case):
